@@ -113,6 +113,9 @@ class Oracle:
             n, k = mp_to_units(v)
             if n == 0:
                 continue
+            e_ = abs(n).bit_length() - 1 + k
+            if e_ < self.f.emin - self.f.p - 4 or e_ > self.f.emax + 2:
+                continue  # far outside the format: rounds to zero / infinity whatever the last bits are
             # relative perturbation 2^-(Pa/2): scale the integer so that +-1 is that small
             s = max(Pa // 2 - (n.bit_length() - 1), 0)
             sh = max(n.bit_length() - 1 - Pa // 2, 0)
@@ -261,7 +264,7 @@ class Oracle:
         fn = self._cfun(fname)
         # zero components: evaluate on either side (the result may depend on the sign of zero on a cut); delta far below every float
         variants = [(x, y)]
-        if x == 0 or y == 0:
+        if (x == 0 or y == 0) and fname not in ("absolute", "exp", "square"):  # entire functions have no cut: evaluate at the exact zero
             variants = []
             for sx in ((1, -1) if x == 0 else (None,)):
                 for sy in ((1, -1) if y == 0 else (None,)):
